@@ -7,6 +7,8 @@ import typing_h as T
 TABLES = ["Enzymes"]
 LAKE_TARGETS = ["Moclo.Props.C12", "Moclo.Tables.Enzymes"]
 THEOREMS = ["Moclo.C12." + t for t in ["generic_structures_self_rc", "live_structures_self_rc", "fits_rc", "fits_rc_on_circle", "generic_occurs_iff", "mirrored_group_text", "mirrored_marks", "screen_rc", "live_sites_nonpalindromic", "report_rc", "valid_rc", "graph_rc", "ent_of_report", "assemble_rc", "unique_fit_checkable"]]
+# reductions under which a failing case stays a case of this property (see shrink.py)
+SHRINK = {"strings": True}
 RULE = ("well-formed generic modules/vectors over every enzyme geometry (exactly the two sites) at a random rotation: "
         "valid iff the reverse complement (computed by the implementation) is, overhangs exchanged and "
         "reverse-complemented, body reverse-complemented; assemblies of the reverse complements compared (up to "
